@@ -44,8 +44,8 @@ structure RtSt where
   ds : List NodeD := []
   m : Option Dataflow.St := none
   ok : Bool := true
-  heap : Heap := initHeap
-  seq : Option Heap := none
+  heap : LHeap := []
+  seq : Option LHeap := none
   agl : List (Nat × Nat) := []
 
 def setup (p : Program) (cfg : Cfg) : RtSt :=
@@ -62,7 +62,8 @@ def stName : Dataflow.Status → String
 def splitAt (ws : List String) : List String := ws.takeWhile (· ≠ "/")
 
 /-- `in .. out ..` of node j read from a heap in which the body of j has run -/
-def showIO (s : RtSt) (h : Heap) (j : Nat) : String :=
+def showIO (s : RtSt) (l : LHeap) (j : Nat) : String :=
+  let h := l.get
   match s.insts[j]?, s.fls[j]? with
   | some t, some fl =>
     let efl := enumFrom 0 fl
@@ -72,9 +73,10 @@ def showIO (s : RtSt) (h : Heap) (j : Nat) : String :=
     "in " ++ " ".intercalate sin ++ " out " ++ " ".intercalate sout
   | _, _ => "bad-node"
 
-/-- the tiles whose content differs from the initial one, `t:v` -/
-def showTiles (cfg : Cfg) (h : Heap) : String :=
-  " ".intercalate (((List.range cfg.tiles).filter fun k => h (.tile k) != 1000 + k).map fun k => s!"{k}:{h (.tile k)}")
+/-- the tiles whose content differs from the initial one, `t:v`, by increasing tile -/
+def showTiles (l : LHeap) : String :=
+  let ks := ((l.filterMap fun w => match w.1 with | .tile k => some k | _ => none).eraseDups).mergeSort
+  " ".intercalate ((ks.filter fun k => l.get (.tile k) != 1000 + k).map fun k => s!"{k}:{l.get (.tile k)}")
 
 def evStep (s : RtSt) (kind : String) (ws : List String) : RtSt × String :=
   match s.m, ints? (splitAt ws) with
@@ -91,7 +93,7 @@ def evStep (s : RtSt) (kind : String) (ws : List String) : RtSt × String :=
       else
         let m2 := Dataflow.step s.g dummyF m1 tr
         if kind == "E" then
-          let h := match s.ds[j]? with | some d => d.exec s.heap | none => s.heap
+          let h := match s.ds[j]? with | some d => d.execL s.heap | none => s.heap
           ({ s with m := some m2, heap := h }, "ok " ++ showIO s h j)
         else ({ s with m := some m2 }, "ok")
   | none, _ => (s, "bad:no-go")
@@ -136,7 +138,7 @@ def step (s : RtSt) : List String → RtSt × String
         | _, _ => (s, "bad-op")
       | ["go"] =>
         let ag := (List.range s.g.n).map fun j => ((s.agl.find? fun x => x.1 == j).map (·.2)).getD 0
-        ({ s with m := some (Dataflow.init s.g ag), ok := true, heap := initHeap }, "ok")
+        ({ s with m := some (Dataflow.init s.g ag), ok := true, heap := [] }, "ok")
       | "B" :: rest => evStep s "B" rest
       | "A" :: rest => evStep s "A" rest
       | "E" :: rest => evStep s "E" rest
@@ -148,10 +150,10 @@ def step (s : RtSt) : List String → RtSt × String
           let q := m1.pending.isEmpty && m1.status.all (· == .ended)
           ({ s with m := some m1 }, if q && s.ok then "complete"
              else s!"incomplete pending={m1.pending.length} status={String.join (m1.status.map stName)}")
-      | ["final"] => (s, showTiles s.cfg s.heap)
+      | ["final"] => (s, showTiles s.heap)
       | ["seqfinal"] =>
-        let h := match s.seq with | some h => h | none => runOrder s.ds (List.range s.insts.length) initHeap
-        ({ s with seq := some h }, showTiles s.cfg h)
+        let h := match s.seq with | some h => h | none => runOrderL s.ds (List.range s.insts.length) []
+        ({ s with seq := some h }, showTiles h)
       | "seqin" :: rest =>
         match ints? rest with
         | some (c :: env) =>
@@ -159,7 +161,7 @@ def step (s : RtSt) : List String → RtSt × String
           match ixOf s.insts ⟨c.toNat, env⟩ with
           | none => (s, "bad:not-in-space")
           | some j =>
-            let h := match s.seq with | some h => h | none => runOrder s.ds (List.range s.insts.length) initHeap
+            let h := match s.seq with | some h => h | none => runOrderL s.ds (List.range s.insts.length) []
             ({ s with seq := some h }, showIO s h j)
         | _ => (s, "bad-op")
       | ["nbatches", c] =>
